@@ -638,7 +638,12 @@ func (ls *LState) raiseError(level int, format string, args ...interface{}) {
 		message = fmt.Sprintf(format, args...)
 	}
 	if level > 0 {
-		message = fmt.Sprintf("%v %v", ls.where(level-1, true), message)
+		lv := level - 1
+		if cf := ls.currentFrame; cf != nil && cf.Fn.IsG {
+			// the host function raising the error (error, assert, ...) is not a level itself
+			lv = level
+		}
+		message = fmt.Sprintf("%v %v", ls.where(lv, true), message)
 	}
 	if ls.reg.IsFull() {
 		// if the registry is full then it won't be possible to push a value, in this case, force a larger size
